@@ -20,10 +20,11 @@ arithmetic of fairlearn/reductions/_grid_search/grid_search.py (core Lean only).
   weighted 0/1 error an exact cost-sensitive learner minimises.
 -/
 import FairModel.Model.Proto
+import FairModel.Generated.GridSrc
 
 namespace Grid
 
-/-! ### integer lattice -/
+/-! ### integer lattice: closed form (the specification `srcLattice` below is proved equal to) -/
 
 /-- `-m, …, -1` -/
 def negVals (m : Nat) : List Int := (List.range m).reverse.map (fun (i : Nat) => -((i : Int) + 1))
@@ -44,6 +45,29 @@ def lattice : List Bool → Bool → Nat → List (List Int)
   | b :: bs, f, m =>
     (values b (bs.isEmpty && f) m).flatMap fun v => (lattice bs f (m - v.natAbs)).map (v :: ·)
 
+/-! ### integer lattice: the recursion of the source, over the LIFTED expressions (`Generated/GridSrc.lean`) -/
+
+/-- `_GridGenerator.accumulate_integer_grid(index, max_val)`: returns the entries appended to
+    `self.accumulator` by this call (their coordinates from `index` on).  The recursion skeleton
+    (`for current_value in values: self.entry[index] = current_value; recurse`) is checked by the lifter;
+    the base-case test, the choice and contents of `values`, the next index and the remaining budget
+    are the lifted expressions.  `fuel` bounds the recursion depth (`dim + 1` calls suffice). -/
+def accumulate (dim : Nat) (na : List Bool) (force : Bool) : Nat → Int → Int → List (List Int)
+  | 0, _, _ => []
+  | fuel + 1, index, maxVal =>
+    if GridSrc.atEnd index dim then [[]]
+    else
+      let neg := na.getD index.toNat false
+      let vals := if GridSrc.lastForced index dim force then GridSrc.lastValues neg maxVal
+                  else GridSrc.rangeValues neg maxVal
+      vals.flatMap fun cur =>
+        (accumulate dim na force fuel (GridSrc.nextIndex index maxVal cur)
+          (GridSrc.budget index maxVal cur)).map (cur :: ·)
+
+/-- `build_integer_grid(m)` as the source computes it; `Grid.srcLattice_eq`: it equals `lattice`. -/
+def srcLattice (negAllowed : List Bool) (f : Bool) (m : Nat) : List (List Int) :=
+  accumulate negAllowed.length negAllowed f (negAllowed.length + 1) GridSrc.startIndex m
+
 /-- number of coordinates that are free once the L1 norm is forced -/
 def trueDim (negAllowed : List Bool) (f : Bool) : Nat :=
   if f then negAllowed.length - 1 else negAllowed.length
@@ -51,18 +75,30 @@ def trueDim (negAllowed : List Bool) (f : Bool) : Nat :=
 /-- the `while True` loop: least `n` with `len(build_integer_grid(n)) >= grid_size`
     (searched up to `grid_size`, which always suffices when `trueDim ≥ 1`: `C09.nUnits_isSome`). -/
 def nUnits (negAllowed : List Bool) (f : Bool) (gridSize : Nat) : Option Nat :=
-  (List.range (gridSize + 1)).find? (fun n => decide (gridSize ≤ (lattice negAllowed f n).length))
+  (List.range (gridSize + 1)).find?
+    (fun n => GridSrc.enough ((srcLattice negAllowed f n).length : Nat) (gridSize : Nat))
+
+/-- the `while True` loop itself, started from an arbitrary `n0` (the float estimate of the source is an
+    INPUT here): `if enough: break` / `n_units = nextUnits n_units`; `fuel` bounds the iterations.
+    `C09.searchFrom_eq_max`: the result is `max n0 (least sufficient radius)`. -/
+def searchFrom (negAllowed : List Bool) (f : Bool) (gridSize : Nat) : Nat → Int → Option Int
+  | 0, _ => none
+  | fuel + 1, n =>
+    if GridSrc.enough ((srcLattice negAllowed f n.toNat).length : Nat) (gridSize : Nat) then some n
+    else searchFrom negAllowed f gridSize fuel (GridSrc.nextUnits n)
 
 /-! ### scaling and basis map -/
 
 def scaleCoefs (limit : Rat) (n : Nat) (v : List Int) : List Rat :=
-  v.map (fun (c : Int) => (c : Rat) * (limit / (n : Rat)))
+  v.map (fun (c : Int) => (c : Rat) * GridSrc.scale limit (n : Nat))
 
-/-- `pos_coefs[pos_coefs < 0] = 0` -/
-def posPart (q : Rat) : Rat := if q < 0 then 0 else q
+/-- `pos_coefs[pos_coefs < 0] = 0` (lifted clip) -/
+def posPart (q : Rat) : Rat := GridSrc.posClip q
 
-/-- `neg_coefs = -pos_coefs ; neg_coefs[neg_coefs < 0] = 0` -/
-def negPart (q : Rat) : Rat := if -q < 0 then 0 else -q
+/-- `neg_coefs = -pos_coefs ; neg_coefs[neg_coefs < 0] = 0` (lifted negation and clip; the source computes
+    `neg_coefs` from the UNCLIPPED `pos_coefs` iff `GridSrc.negFromClipped = false`) -/
+def negPart (q : Rat) : Rat :=
+  GridSrc.negClip (GridSrc.negOf (if GridSrc.negFromClipped then GridSrc.posClip q else q))
 
 def dot (a b : List Rat) : Rat := (List.zipWith (· * ·) a b).sum
 
@@ -83,8 +119,23 @@ def grid (negAllowed : List Bool) (f : Bool) (gridSize : Nat) (limit : Rat)
   | none => .error .noUnits
   | some 0 => .error .zeroDiv
   | some (n + 1) =>
-    .ok (n + 1, ((lattice negAllowed f (n + 1)).take gridSize).map
+    .ok (n + 1, (GridSrc.truncate (srcLattice negAllowed f (n + 1)) (gridSize : Nat)).map
       (fun v => lambdaOf rows (scaleCoefs limit (n + 1) v)))
+
+/-- the grid the loop produces when it is started at `n0` (`grid` = started at or below the least radius) -/
+def gridFrom (negAllowed : List Bool) (f : Bool) (gridSize : Nat) (limit : Rat)
+    (rows : List (List Rat × List Rat)) (n0 : Nat) : Except GridErr (Nat × List (List Rat)) :=
+  match searchFrom negAllowed f gridSize (gridSize + 2) (n0 : Nat) with
+  | none => .error .noUnits
+  | some n =>
+    if n ≤ 0 then .error .zeroDiv
+    else .ok (n.toNat, (GridSrc.truncate (srcLattice negAllowed f n.toNat) (gridSize : Nat)).map
+      (fun v => lambdaOf rows (scaleCoefs limit n.toNat v)))
+
+/-- `self.grid = _grid.add(self.grid_offset, axis="index")`: every multiplier vector shifted by the offset
+    (one entry per constraint row) -/
+def addOffset (offset : List Rat) (g : List (List Rat)) : List (List Rat) :=
+  g.map (fun lam => List.zipWith GridSrc.withOffset lam offset)
 
 /-- unit vector `e_j` of length `d` -/
 def unitVec (d j : Nat) : List Rat := (List.range d).map (fun i => if i = j then 1 else 0)
@@ -116,6 +167,11 @@ def basisOK (d : Nat) (rows : List (List Rat × List Rat)) : Bool :=
 
 /-! ### selection -/
 
+def allSomeR : List (Option Rat) → Option (List Rat)
+  | [] => some []
+  | none :: _ => none
+  | some a :: r => (allSomeR r).map (a :: ·)
+
 def maxL (x : Rat) : List Rat → Rat
   | [] => x
   | y :: ys => maxL (if x < y then y else x) ys
@@ -126,26 +182,81 @@ def minL (x : Rat) : List Rat → Rat
 
 /-- `objective_weight * objectives_[i] + constraint_weight * gammas_[i].max()` with
     `objective_weight = 1 - constraint_weight`; `none` for an empty gamma vector (pandas gives NaN) -/
+def aggL (a : GridSrc.Agg) (x : Rat) (xs : List Rat) : Rat :=
+  match a with
+  | .max => maxL x xs
+  | .min => minL x xs
+
 def tradeoff (cw obj : Rat) (gam : List Rat) : Option Rat :=
   match gam with
   | [] => none
-  | g :: gs => some ((1 - cw) * obj + cw * maxL g gs)
+  | g :: gs => some (GridSrc.loss cw obj (aggL GridSrc.gammaAgg g gs))
 
-/-- `losses.index(min(losses))` -/
+/-- `losses.index(min(losses))` (which extreme: lifted; `list.index` = first position) -/
 def argminFirst : List Rat → Option Nat
   | [] => none
-  | x :: xs => some ((x :: xs).idxOf (minL x xs))
+  | x :: xs => some ((x :: xs).idxOf (aggL GridSrc.selAgg x xs))
+
+/-- a RUNNING arg-min over the losses (`best, idx` updated when a strictly smaller loss is met):
+    `C09.runningArgmin_eq`: the same index as `argminFirst` -/
+def runningArgmin : List Rat → Option Nat
+  | [] => none
+  | x :: xs =>
+    some ((xs.foldl (fun (st : Rat × Nat × Nat) y =>
+      if y < st.1 then (y, st.2.2, st.2.2 + 1) else (st.1, st.2.1, st.2.2 + 1)) (x, 0, 1)).2.1)
+
+/-- `GridSearch.fit`'s selection for a list of `(objective, gamma)` records -/
+def select (cw : Rat) (recs : List (Rat × List Rat)) : Option Nat :=
+  (allSomeR (recs.map (fun r => tradeoff cw r.1 r.2))).bind argminFirst
+
+/-- `predict` / `predict_proba`: `self.predictors_[self.best_idx_].predict(X)` -/
+def predictWith {P Y : Type} (run : P → Y) (preds : List P) (best : Nat) : Option Y :=
+  (preds[best]?).map run
 
 /-! ### relabelling and the learner's objective -/
 
-/-- `y_reduction = 1 * (weights > 0)`, `weights = weights.abs()` -/
+/-- `y_reduction = 1 * (weights > 0)`, `weights = weights.abs()` (both lifted) -/
 def relabel (w : List Rat) : List (Nat × Rat) :=
-  w.map (fun x => (if 0 < x then 1 else 0, if x < 0 then -x else x))
+  w.map (fun x => ((GridSrc.relabelY x).toNat, GridSrc.relabelW x))
+
+/-- `weights = constraints.signed_weights(lambda) [+ objective.signed_weights()]` row by row -/
+def combineWeights (span : Bool) (w ow : List Rat) : List Rat :=
+  List.zipWith (GridSrc.combine span) w ow
 
 /-- weighted 0/1 error of the labeling `h` on relabelled / reweighted rows -/
 def weighted01 : List (Nat × Rat) → List Nat → Rat
   | (y, w) :: rows, h :: hs => (if h = y then 0 else w) + weighted01 rows hs
   | _, _ => 0
+
+/-! ### the loop of `GridSearch.fit` over the grid columns -/
+
+/-- number of distinct labels of the relabelled data (`len(np.unique(y_reduction))`) -/
+def nUnique (data : List (Nat × Rat)) : Nat := (data.map (·.1)).eraseDups.length
+
+/-- the estimator trained at one grid point: `DummyClassifier(strategy="constant", constant=y_reduction_unique[0])`
+    when the relabelled data has a single label (lifted test `GridSrc.useDummy`), else the base learner
+    (a PARAMETER of the model: any function from the relabelled / reweighted rows to a labeling of the rows) -/
+def trainAt (learner : List (Nat × Rat) → List Nat) (data : List (Nat × Rat)) : List Nat :=
+  if GridSrc.useDummy (nUnique data : Nat) then data.map (fun _ => (data.map (·.1)).headD 0)
+  else learner data
+
+structure FitOut where
+  preds : List (List Nat)       -- `predictors_` (their labelings of the training rows)
+  objectives : List Rat         -- `objectives_`
+  gammas : List (List Rat)      -- `gammas_` (one vector per predictor)
+  best : Nat                    -- `best_idx_`
+deriving Repr
+
+/-- `for i in grid.columns:` weights = constraint weights [+ objective weights]; relabel; train; record the
+    objective and the constraint violation OF THE TRAINED PREDICTOR; then select.  `cwOf` / `ow`: signed weights of
+    the constraints for a multiplier vector and of the objective (C07's model, parameters here); `objOf` / `gamOf`:
+    `objective.gamma(h)` and `constraints.gamma(h)` of a labeling (parameters). -/
+def fitLoop (span : Bool) (cwOf : List Rat → List Rat) (ow : List Rat)
+    (learner : List (Nat × Rat) → List Nat) (objOf : List Nat → Rat) (gamOf : List Nat → List Rat)
+    (cw : Rat) (grid : List (List Rat)) : Option FitOut :=
+  let preds := grid.map (fun lam => trainAt learner (relabel (combineWeights span (cwOf lam) ow)))
+  let recs := preds.map (fun h => (objOf h, gamOf h))
+  (select cw recs).map (fun b => ⟨preds, recs.map (·.1), recs.map (·.2), b⟩)
 
 /-! ### driver glue -/
 
@@ -163,6 +274,13 @@ def allSome {α} : List (Option α) → Option (List α)
   `grid.lattice <negAllowed> <forceL1> <n>`                         → integer points `;`-separated
   `grid.lambdas <negAllowed> <forceL1> <gridSize> <limit> <posRows> <negRows>`
         → `<n_units> <unitBasis 0/1> <basisOK 0/1> <lambda vectors, one per grid column, ;-separated>` or `err:…`
+  `grid.lambdas0 <negAllowed> <forceL1> <gridSize> <limit> <posRows> <negRows> <n0> <offset>`
+        → `<n_units reached from n0> <noOvershoot 0/1> <lambda vectors shifted by the offset>` or `err:…`
+  `grid.estimate <negAllowed> <forceL1> <gridSize> <n0>`           → `<noOvershoot 0/1> <least n> <n reached from n0>`
+  `grid.select2 <cw> <objectives> <gammas>`  → `<select> <runningArgmin> <predictor index predict delegates to>`
+  `grid.weights <span 0/1> <constraint weights> <objective weights>` → `<combined> <labels> <abs weights> <useDummy 0/1>`
+  `grid.fitloop <span> <cw> <objective weights> <constraint weights per point ;> <learner labelings per point ;>
+        <objective per point> <gammas per point ;>` → `<best_idx> <trained labelings ;> <objectives>`
   `grid.select <cw> <objectives> <gammas, one row per predictor>`   → `<best idx> <losses>`
   `grid.relabel <signed weights>`                                   → `<labels> <abs weights>`
   `grid.cost <signed weights> <labeling per row>`                   → weighted 0/1 error -/
@@ -172,7 +290,7 @@ def handle (toks : List String) : Option String :=
     let na ← parseBools na
     let f ← Proto.parseBool f
     let n ← Proto.parseNat n
-    pure (fmtIntMat (lattice na f n))
+    pure (fmtIntMat (srcLattice na f n))
   | ["grid.lambdas", na, f, gs, lim, pr, nr] => do
     let na ← parseBools na
     let f ← Proto.parseBool f
@@ -187,6 +305,84 @@ def handle (toks : List String) : Option String :=
       | .error .zeroDiv => pure "err:zerodiv"
       | .ok (n, g) => pure (toString n ++ " " ++ Proto.fmtBool (unitBasis na (pr.zip nr)) ++ " " ++
           Proto.fmtBool (basisOK na.length (pr.zip nr)) ++ " " ++ Proto.fmtMat g)
+  | ["grid.lambdas0", na, f, gs, lim, pr, nr, n0, off] => do
+    let na ← parseBools na
+    let f ← Proto.parseBool f
+    let gs ← Proto.parseNat gs
+    let lim ← Proto.parseRat lim
+    let pr ← Proto.parseMat pr
+    let nr ← Proto.parseMat nr
+    let n0 ← Proto.parseNat n0
+    let off ← Proto.parseRats off
+    if pr.length ≠ nr.length || pr.any (·.length ≠ na.length) || nr.any (·.length ≠ na.length)
+        || off.length ≠ pr.length then none
+    else
+      let ok := GridSrc.noOvershoot gs (na.filter id).length (trueDim na f) n0
+      match gridFrom na f gs lim (pr.zip nr) n0 with
+      | .error .noUnits => pure "err:nounits"
+      | .error .zeroDiv => pure "err:zerodiv"
+      | .ok (n, g) => pure (toString n ++ " " ++ Proto.fmtBool ok ++ " " ++ Proto.fmtMat (addOffset off g))
+  | ["grid.estimate", na, f, gs, n0] => do
+    let na ← parseBools na
+    let f ← Proto.parseBool f
+    let gs ← Proto.parseNat gs
+    let n0 ← Proto.parseNat n0
+    let ok := GridSrc.noOvershoot gs (na.filter id).length (trueDim na f) n0
+    match nUnits na f gs, searchFrom na f gs (gs + 2) (n0 : Nat) with
+    | some n, some m => pure (Proto.fmtBool ok ++ " " ++ toString n ++ " " ++ toString m)
+    | _, _ => pure "err:nounits"
+  | ["grid.select2", cw, objs, gams] => do
+    let cw ← Proto.parseRat cw
+    let objs ← Proto.parseRats objs
+    let gams ← Proto.parseMat gams
+    if objs.length ≠ gams.length then none
+    else
+      let i ← select cw (objs.zip gams)
+      let losses ← allSomeR (List.zipWith (tradeoff cw) objs gams)
+      let j ← runningArgmin losses
+      let k ← predictWith id (List.range objs.length) i
+      pure (toString i ++ " " ++ toString j ++ " " ++ toString k)
+  | ["grid.weights", span, w, ow] => do
+    let span ← Proto.parseBool span
+    let w ← Proto.parseRats w
+    let ow ← Proto.parseRats ow
+    if w.length ≠ ow.length then none
+    else
+      let c := combineWeights span w ow
+      let r := relabel c
+      let uniq := (r.map (·.1)).eraseDups.length
+      pure (Proto.fmtRats c ++ " " ++ Proto.fmtNats (r.map (·.1)) ++ " " ++ Proto.fmtRats (r.map (·.2)) ++ " " ++
+        Proto.fmtBool (GridSrc.useDummy (uniq : Nat)))
+  | ["grid.fitloop", span, cw, ow, cws, preds, objs, gams] => do
+    -- the loop replayed on recorded data: `cws` = constraint weights per grid point, `preds` = the labelings the
+    -- base learner returned per grid point (used as the learner), objs / gams = the oracle's records per labeling
+    let span ← Proto.parseBool span
+    let cw ← Proto.parseRat cw
+    let ow ← Proto.parseRats ow
+    let cws ← Proto.parseMat cws
+    let preds ← (if preds = "-" then some [] else (preds.splitOn ";").mapM Proto.parseNats)
+    let objs ← Proto.parseRats objs
+    let gams ← Proto.parseMat gams
+    if cws.length ≠ preds.length || preds.length ≠ objs.length || objs.length ≠ gams.length then none
+    else
+      -- multiplier vectors are represented by their position; the parameters look the recorded values up
+      let idx := fun (lam : List Rat) => match lam with | [q] => q.num.toNat | _ => 0
+      let grid := (List.range cws.length).map (fun (i : Nat) => [(i : Rat)])
+      let table := (preds.zip (objs.zip gams))
+      let look := fun (h : List Nat) => (table.find? (fun t => t.1 == h)).map (·.2)
+      let learnerAt := fun (i : Nat) (_ : List (Nat × Rat)) => preds.getD i []
+      -- the learner must be one function: it is looked up by the relabelled data it receives
+      let datas := cws.map (fun c => relabel (combineWeights span c ow))
+      let learner := fun (d : List (Nat × Rat)) =>
+        match (datas.zip (List.range datas.length)).find? (fun t => t.1 == d) with
+        | some t => learnerAt t.2 d
+        | none => []
+      match fitLoop span (fun lam => cws.getD (idx lam) []) ow learner
+          (fun h => ((look h).map (·.1)).getD 0) (fun h => ((look h).map (·.2)).getD []) cw grid with
+      | none => pure "err:select"
+      | some out =>
+        pure (toString out.best ++ " " ++ ";".intercalate (out.preds.map Proto.fmtNats) ++ " " ++
+          Proto.fmtRats out.objectives)
   | ["grid.select", cw, objs, gams] => do
     let cw ← Proto.parseRat cw
     let objs ← Proto.parseRats objs
